@@ -2,7 +2,7 @@
 //@harness name=tuple_has_hash_unhashable_elem props=C12,C02 obligation=ObjTuple/has_hash_unhashable_element_twice kind=bounded bound="the concrete tuple (1, [..]) — one hashable and one unhashable element — asked twice; loops unwound 4" doc="ObjTuple::has_hash on a tuple with an unhashable element answers false, answers false again when asked again, and leaves the recursion guard (self_lock) as it found it — so validate_hash_map_key keeps rejecting the same key"
 //@harness name=tuple_has_hash_hashable props=C12,C02 obligation=ObjTuple/has_hash_hashable_elements kind=bounded bound="the concrete tuples (), (1,), (nil, true); loops unwound 4" doc="ObjTuple::has_hash answers true for tuples of hashable elements, twice, guard restored"
 //@harness name=tuple_hash_coherent props=C12 obligation=ObjTuple/hash_respects_equality kind=bounded bound="pairs of 1-tuples of symbolic numbers; loops unwound 4" doc="two 1-tuples of numbers that are == hash alike (element hash is hash_number, folded with xor from 0)"
-//@harness name=scalar_hash_total props=C12,C02 obligation=Value/scalar_has_hash_and_hash_total kind=complete doc="nil, every bool and every number: has_hash is true and Value::hash does not panic; equal scalars hash alike"
+//@harness name=scalar_hash_total props=C12,C02 obligation=Value/scalar_has_hash_and_hash_total kind=complete doc="nil, every bool and every number: has_hash is true and Value::hash does not panic; scalars that are == under the language's equality (Value::eq) hash alike; Value::eq on numbers is IEEE equality"
 //@harness name=unhashable_kinds_rejected props=C12,C02 obligation=Value/unhashable_kinds_have_no_hash kind=complete doc="a Vec value has has_hash() == false (so validate_hash_map_key rejects it before Value::hash's panicking arm can run)"
 use super::*;
 use crate::hash::PassThroughHasher;
@@ -65,9 +65,12 @@ fn tuple_hash_coherent() {
     t1.gc().hash(&mut h1);
     let mut h2 = PassThroughHasher::default();
     t2.gc().hash(&mut h2);
+    // keys are compared with the language's `==` (PartialEq for ObjTuple / Value), not with f64 `==`
+    if *t1.gc() == *t2.gc() {
+        assert!(h1.finish() == h2.finish());
+    }
     if a == b {
         assert!(*t1.gc() == *t2.gc());
-        assert!(h1.finish() == h2.finish());
     }
     std::mem::forget(t1);
     std::mem::forget(t2);
@@ -88,7 +91,8 @@ fn scalar_hash_total() {
     let x: f64 = kani::any();
     let y: f64 = kani::any();
     assert!(Value::Number(x).has_hash());
-    if x == y {
+    // the language's `==` on numbers (Value::eq) must imply equal hashes
+    if Value::Number(x) == Value::Number(y) {
         assert!(hash_of(&Value::Number(x)) == hash_of(&Value::Number(y)));
     }
 }
